@@ -258,6 +258,21 @@ _SPECS = {}
 POOL_REUSE = True
 
 
+def rebuild_specs():
+    """invalidation on rebuild (second sentence of the property: an edited node is regenerated): Transformer._rebuild must
+    hand the result an invalidated clone of the source whenever a child node was rebuilt - in place or not.  The specs
+    live in contracts/C14.py (same token model) and are an obligation of both properties."""
+    import builtins
+    builtins._PYVC_SHARED_THEORY = T
+    from contracts import C14
+    out = []
+    for kinds in ('', 'n', 'N', 't', 'nN', 'Nn', 'NN', 'tn'):
+        sp = C14.spec_rebuild(kinds)
+        sp.prop, sp.theory = PROP, T
+        out.append(sp)
+    return out
+
+
 def specs(tier='quick'):
     if tier in _SPECS:
         return _SPECS[tier]
@@ -269,6 +284,7 @@ def specs(tier='quick'):
     out += [spec_handler('visit_Comment', t) for t in ('    ! a full-line comment', 'x = 1  ! inline', '!')]
     out += [spec_source_status(s) for s in (SourceStatus.VALID, SourceStatus.INVALID_NODE, SourceStatus.INVALID_CHILDREN)]
     out += [spec_conditional_children_invalid(c) for c in COND_CASES]
+    out += rebuild_specs()
     _SPECS[tier] = out
     return out
 
